@@ -16,7 +16,7 @@ import numpy as np
 
 from harness import classify, graphs as G, progcheck as PC, programs as P, trace as T
 
-KNOWN = ("swv-layout-drift", "take-through-broadcast")
+KNOWN = ("swv-layout-drift", "take-through-broadcast", "slice-through-generic-blockwise")
 
 
 def compute_expr(e):
